@@ -555,6 +555,15 @@ def check_validator_in_force(ctx, rng):
                 detach(B)
                 await asyncio.sleep(0.3)
                 out.append(('detach-during-validation', tuple(rc.strict_interest(wire)['name'])))
+                # (3) a handler without validator below a handler with a permissive one: the validator in force for the longer
+                # prefix is "none" (current front-end: rejection; legacy: the application-wide default, which rejects here)
+                P2 = [C(b'zone%d' % rep)]
+                Q2 = P2 + [C(b'strict')]
+                attach(P2, handler('zone'), validator('zone-accept', True))
+                attach(Q2, handler('strict-no-validator'), None)
+                n4 = await signed(Q2)
+                n5 = await signed(P2)
+                out.append(('nested-no-validator', n4, n5))
                 res['out'] = out
                 the_app.shutdown()
                 await asyncio.wait_for(main_task, 5)
@@ -572,6 +581,12 @@ def check_validator_in_force(ctx, rng):
                 ctx.report(f'stale-validator-after-reattach:{fe}', 'after detaching and re-attaching a prefix without validator, a signed Interest reached the new handler '
                            '(the validator of the previous attachment was still consulted)' if ('v', 'permissive', n2) in log else
                            'after re-attaching a prefix without validator a signed Interest reached the handler although the validator in force rejects', w)
+            _, n4, n5 = res['out'][2]
+            if ('h', 'strict-no-validator', n4) in log or ('h', 'zone', n4) in log:
+                ctx.report(f'delivered-by-validator-of-another-prefix:{fe}', 'a handler attached without validator received a signed Interest because the validator of an enclosing '
+                           'prefix accepted it' if ('v', 'zone-accept', n4) in log else 'a signed Interest reached a handler although no validator in force for its prefix accepted it', w)
+            if ('h', 'zone', n5) not in log:
+                ctx.event('observation:accepted-signed-interest-not-delivered')
             n3 = res['out'][1][1]
             if ('h', 'outer', n3) in log:
                 ctx.report(f'delivered-to-handler-whose-validator-did-not-accept:{fe}', 'an Interest validated for the (meanwhile detached) longer prefix was handed to the handler of the '
